@@ -128,6 +128,12 @@ def check(ctx):
     an, model = ctx.an, ctx.model
     from .c02 import check_container_items_encoded
     check_container_items_encoded(ctx)      # secrets / digests held as items of typed lists and dicts
+    # shared clause (C01): "stores only a salted hash" holds for a challenge field used as the item / value field of a typed
+    # container only if everything the container stores went through the field's validation (which hashes)
+    from .c01 import check_taint
+    sub0 = type(ctx)(ctx.pid, ctx.an, ctx.tier)
+    check_taint(sub0)
+    ctx.obligations.extend(sub0.obligations)
     calls = an.summary(CALLS)
     CF = model.cls("ChallengeField")
     DV = model.cls("DigestValue")
